@@ -71,6 +71,7 @@ func main() {
 	profile := flag.String("profile", "ticks", "instrumentation profile (only \"ticks\")")
 	repo := flag.String("repo", "/repo", "keto working tree")
 	out := flag.String("out", "", "output directory")
+	over := flag.String("over", "", "directory with replacement sources (mutants), paths relative to the repo")
 	flag.Parse()
 	if *profile != "ticks" {
 		fail("unknown profile %q", *profile)
@@ -99,8 +100,14 @@ func main() {
 	totalF, totalL := 0, 0
 	for _, n := range names {
 		src := filepath.Join(dir, n)
+		readFrom := src
+		if *over != "" {
+			if alt := filepath.Join(*over, "internal", "schema", n); fileExists(alt) {
+				readFrom = alt // a mutant of this file: instrument the mutant
+			}
+		}
 		fset := token.NewFileSet()
-		f, err := parser.ParseFile(fset, src, nil, parser.ParseComments)
+		f, err := parser.ParseFile(fset, readFrom, nil, parser.ParseComments)
 		if err != nil {
 			fail("parse %s: %v", src, err)
 		}
@@ -120,7 +127,7 @@ func main() {
 		if err != nil || chk.Name.Name != f.Name.Name {
 			fail("instrumented %s is not a valid file of package %s: %v", n, f.Name.Name, err)
 		}
-		if c0, c1 := constraints(src), constraintsOf(b); c0 != c1 {
+		if c0, c1 := constraints(readFrom), constraintsOf(b); c0 != c1 {
 			fail("build constraints of %s changed: %q -> %q", n, c0, c1)
 		}
 		dst := filepath.Join(*out, n)
@@ -137,6 +144,11 @@ func main() {
 		fail("%v", err)
 	}
 	fmt.Printf("vticks: %d files, %d function entries, %d loop bodies instrumented\n", len(replace), totalF, totalL)
+}
+
+func fileExists(p string) bool {
+	st, err := os.Stat(p)
+	return err == nil && !st.IsDir()
 }
 
 // constraints returns the //go:build and // +build lines that precede the package clause.
